@@ -292,6 +292,11 @@ class Ctx:
                 self.broken_obligation(msg)
             else:
                 self.notes.append(msg + ' (this property does not depend on the generated constants)')
+        if 'AeicModel.Generated.Guard' in deps:
+            try:
+                translator.regenerate_guard()
+            except Exception as e:  # the guard region is no longer in a form the translator understands
+                self.broken_obligation(f'translator (thread guard): {type(e).__name__}: {e}')
         targets = ['aeic_driver']
         if (LEAN_DIR / 'AeicProofs' / 'Properties' / f'{self.pid}.lean').exists():
             targets.append(f'AeicProofs.Properties.{self.pid}')
